@@ -188,6 +188,7 @@ def check_sorted_before_use(run, f, vec_local, def_block):
     sort_blocks = []
     sort_names = []
     other_blocks = []
+    sort_terms = []
     work = [(vec_local, 0)]
     seen = set()
     while work:
@@ -207,6 +208,7 @@ def check_sorted_before_use(run, f, vec_local, def_block):
                 if is_sort_call(o):
                     sort_blocks.append(bi)
                     sort_names.append(o.get("resolved") or o.get("callee") or "")
+                    sort_terms.append(o)
                     continue
             if k == "stmt" and o["k"] == "assign" and o["rv"]["k"] == "use" and not o["place"]["p"]:
                 # move into another local
@@ -220,10 +222,22 @@ def check_sorted_before_use(run, f, vec_local, def_block):
             return False, "Vec collected from a hash container is used (line %d) on a path that does not pass the sort" % f.blocks[ob]["term"]["span"]["line"]
     keyed = [n for n in sort_names if re.search(r"sort(_unstable)?_by", n)]
     if keyed:
-        audited = {e["fn"]: e["reason"] for e in run.table("hash_iter")["injective_sort_keys"]} if hasattr(run, "table") else {}
-        if f.id not in audited:
+        table = {e["fn"]: e for e in run.table("hash_iter")["injective_sort_keys"]} if hasattr(run, "table") else {}
+        if f.id not in table:
             return False, "Vec collected from a hash container is sorted with a key/comparator (`%s`) that is not audited as tie-free: elements that compare equal keep their hash order" % keyed[0].rsplit("::", 1)[-1]
-        return True, "collected into a Vec that is sorted (tie-free key: %s) before any other use" % audited[f.id]
+        # the audited key expression is the one in the code
+        from rules_sym import deep
+        got = []
+        for o in sort_terms:
+            if len(o["args"]) > 1:
+                cid = closure_of_origin(f.origin_op(o["args"][1]))
+                g = run.prog.fn(cid) if cid else None
+                if g is not None:
+                    got.append(deep(g, g.origin_local(0), 6))
+        want = table[f.id].get("key")
+        if want is not None and got != [want]:
+            return False, "Vec collected from a hash container is sorted by `%s`; the key audited as tie-free is `%s`: elements with equal keys keep their hash order" % (got, want)
+        return True, "collected into a Vec that is sorted (tie-free key: %s) before any other use" % table[f.id]["reason"]
     return True, "collected into a Vec that is fully sorted before any other use"
 
 
@@ -241,7 +255,8 @@ def det1(run, fns=None, rule="DET1"):
                           "retain on a hash container in %s visits entries in hash order and its predicate is not a pure function" % f.id)
         for bi, t in hash_iter_sources(f):
             n += 1
-            cont = describe_origin(f, f.origin_op(t["args"][0])) if t["args"] else "?"
+            from mir import stable_origin
+            cont = stable_origin(f, f.origin_op(t["args"][0])) if t["args"] else "?"
             key = "%s|%s|%s|%s" % (rule, f.id, callee_name(t), cont)
             loc = f.loc(t["span"])
             ok, why = follow_hash_iter(run, f, t["dest"]["l"], key, loc)
@@ -327,3 +342,95 @@ def det4(run):
                   "static %s is %s: process-global mutable state can make a later assembly depend on an earlier one" % (
                       f.id, "`static mut`" if r.get("static_mut") else "not Freeze (interior mutability, type `%s`)" % r.get("static_ty")))
     return n
+
+
+
+LOSSY = re.compile(r"(::chunks_exact|::chunks_exact_mut|::array_chunks|::as_chunks|::rchunks_exact)$")
+
+
+def lossy_apis(run, R="TAB-fmt"):
+    """the output formatters walk all of the data: iteration helpers that silently drop a short remainder are not used there"""
+    n = 0
+    for f in run.prog.real_fns():
+        root = f.raw.get("root") or f.id
+        if not root.startswith("util::bitvec_format::"):
+            continue
+        n += 1
+        for bi, t in f.calls():
+            c = t.get("callee") or ""
+            if LOSSY.search(c):
+                run.violation(R, "%s|lossy-iteration|%s" % (R, root), f.loc(t["span"]), "%s iterates with `%s`, which drops a final chunk shorter than the chunk size: the last bytes of an output whose length is not a multiple of the granule would be lost" % (root, c.rsplit("::", 1)[-1]))
+    run.check(n >= 8, R, R + "|lossy-iteration|scope", "-", "no remainder-dropping iteration in the %d formatter functions" % n, "formatter functions not found")
+
+
+def ceil_divisions(run, R="TAB-fmt"):
+    """granule counts: `(x + k) / d` rounds up to whole granules only when k = d - 1; any other k loses a partial granule
+    (or adds an empty one)"""
+    from rules_sym import deep
+    from mir import op_local, const_int
+    n = 0
+    for f in run.prog.real_fns():
+        root = f.raw.get("root") or f.id
+        if not (root.startswith("util::bitvec_format::") or root.startswith("util::bitvec::")):
+            continue
+        for bi, si, st in f.stmts():
+            if st["k"] != "assign" or st["rv"]["k"] != "binop" or st["rv"]["op"] != "Div" or st["span"].get("mac"):
+                continue
+            lo = f.origin_op(st["rv"]["l"])
+            if lo and lo[0] == "place" and lo[1][0] == "binop":
+                lo = lo[1]
+            if not (lo and lo[0] == "binop" and lo[1]["op"].startswith("Add")):
+                continue
+            # left-nested sums: (x + a) - 1 or x + (d - 1)
+            D = deep(f, st["rv"]["r"], 6)
+            dconst = const_int(st["rv"]["r"])
+            whole = deep(f, st["rv"]["l"], 8)
+            # only sums whose added amount is built from the divisor (or, for constants, both constant) are rounding attempts
+            kexpr = deep(f, lo[1]["r"], 6)
+            ktoks = set(re.findall(r"P\d+(?:\.\w+)*|upvar:\w+", kexpr))
+            dtoks = set(re.findall(r"P\d+(?:\.\w+)*|upvar:\w+", D))
+            if not ((dconst is not None and const_int(lo[1]["r"]) is not None) or (ktoks & dtoks)):
+                m0 = re.fullmatch(r"\(\((.*) Add (.*)\) Sub 1_usize\)", whole)
+                if not (m0 and set(re.findall(r"P\d+(?:\.\w+)*|upvar:\w+", m0.group(2))) & dtoks):
+                    continue
+            n += 1
+            ok = False
+            kc = const_int(lo[1]["r"])
+            if dconst is not None and kc is not None:
+                ok = kc == dconst - 1
+            else:
+                # x + (D - 1)   or   (x + D) - 1, with D spelled like the divisor
+                k = deep(f, lo[1]["r"], 6)
+                ok = k == "(%s Sub 1_usize)" % D
+            if not ok:
+                lo2 = f.origin_op(st["rv"]["l"])
+                if lo2 and lo2[0] == "place" and lo2[1][0] == "binop":
+                    lo2 = lo2[1]
+                # ((x + D) - 1) / D
+                m = re.fullmatch(r"\(\((.*) Add (.*)\) Sub 1_usize\)", whole)
+                ok = bool(m) and m.group(2) == D
+            key = "%s|ceil|%s|%s" % (R, root, D[:60])
+            run.check(ok, R, key, f.loc(st["span"]), "%s rounds up to whole granules of %s" % (root.rsplit("::", 1)[-1], D[:60]),
+                      "%s computes `%s / %s`: this rounds up only when the added amount is the divisor minus one; a final partial granule would be dropped (or an empty one added)" % (root, whole[:120], D[:60]))
+    run.count("ceil_divisions", n)
+
+
+def intelhex_address_width(run, R="TAB-fmt"):
+    """Intel HEX data records carry 16 address bits; a formatter that can be handed larger addresses must emit extended
+    address records (the upper 16 bits: a shift by 16) or reject them (a comparison with 0xffff / 0x10000)"""
+    from mir import const_int
+    fns = [f for f in run.prog.real_fns() if (f.raw.get("root") or f.id).endswith("BitVec>::format_intelhex")]
+    if not fns:
+        run.violation(R, R + "|intelhex|anchor", "-", "mechanism not found: format_intelhex")
+        return
+    handled = False
+    for f in fns:
+        for bi, si, st in f.stmts():
+            if st["k"] == "assign" and st["rv"]["k"] == "binop":
+                c = const_int(st["rv"]["r"])
+                if st["rv"]["op"] in ("Shr", "ShrUnchecked") and c == 16:
+                    handled = True
+                if st["rv"]["op"] in ("Gt", "Ge", "Lt", "Le") and c in (0xffff, 0x10000):
+                    handled = True
+    run.check(handled, R, R + "|intelhex|address-width", fns[0].loc(), "addresses beyond 16 bits are handled (extended address record or rejection)",
+              "format_intelhex prints only the low 16 bits of a record address and neither emits extended address records nor rejects larger addresses: data beyond 64K address units wraps around onto the first 64K")
